@@ -320,7 +320,7 @@ def compare_segments(segments, workdir, dump=False, release=False, op_timeout=20
 
 def shrink(ops, failing, budget=120):
     """delta debugging on the op list; `failing(ops) -> bool`. setup ops (db/map) are kept."""
-    keep = lambda l: l.split()[0] in ('db', 'map')
+    keep = lambda l: l.split()[0] in ('db', 'map', 'dbclone', 'mapclone')
     cur = list(ops)
     n = 2
     tries = 0
